@@ -140,6 +140,37 @@ def body_cases(E, k, s1, s2, s3, s4, nsub, kind, dictsp, flat, via, base, shuf, 
         return True
 
 
+def body_strcases(E, k, via, nsub, base):
+    """a single case argument given as bare (multi-character) strings, tuple spelling"""
+    k = concretize(k, 1, 3)
+    via = concretize(via, 0, 1)
+    nsub = concretize(nsub, 0, 2)
+    names = ["left", "up", "right"][:k]
+    log = []
+
+    def fn(mode, c=0):
+        log.append((mode, c))
+        return base + len(mode) + c
+
+    with (E(xr=True) if via == 1 else E()):
+        combos = {"c": SUB[:nsub]} if nsub else None
+        if via == 0:
+            out = case_runner(fn, "mode", tuple(names), combos=combos, verbosity=0)
+        else:
+            from xyzpy.gen.farming import Runner
+
+            ds = Runner(fn, "x", fn_args="mode").run_cases(
+                tuple(names), combos=tuple(combos.items()) if combos else (), verbosity=0)
+            out = None
+        subs = SUB[:nsub] if nsub else [0]
+        want = [(m, c) for m in names for c in subs]
+        if sorted(log) != sorted(want):
+            return False
+        if out is not None:
+            return list(out) == [base + len(m) + c for m, c in want]
+        return sorted(str(v) for v in ds["mode"].values) == sorted(names)
+
+
 def body_overlap(E, k, which):
     """an argument may not appear in both the cases and the grid: rejected before anything runs"""
     k = concretize(k, 1, 2)
@@ -181,6 +212,10 @@ CONDS = (
                  ["2 <= k <= 4 and nsub == 0 and via == 0 and shuf and kind == 0 and s1 == 0 and s2 == 0 and s3 == 0 "
                   "and s4 == 0 and dictsp", "0 <= j1 <= 1 and 0 <= j2 <= 2 and 0 <= j3 <= 3 and j4 == 0 and j5 == 0"],
                  timeout=300, bounds="2-4 cases under every shuffle permutation, nested and flat"),
+       make_cond(_G, "strcases", body_strcases, "k:int via:int nsub:int base:int",
+                 ["1 <= k <= 3 and 0 <= via <= 1 and 0 <= nsub <= 2"], timeout=200,
+                 bounds="1-3 cases of a single argument given as bare strings ('left', 'up', 'right'), optional "
+                        "sub-grid, through case_runner and Runner.run_cases: called exactly for the requested strings"),
        make_cond(_G, "overlap", body_overlap, "k:int which:int", ["1 <= k <= 2 and 0 <= which <= 1"], timeout=60,
                  bounds="a case argument that also appears in combos: ValueError with an empty call log"),
        make_cond(_G, "cases4", body_cases, _SIG,
